@@ -3,6 +3,9 @@ import O4.Lemmas.Obfs4Rx
 import O4.Generated.Facts.Obfs4
 import O4.Model.Ntor
 import O4.Lemmas.Obfs4Tamper
+import O4.Generated.Facts.Framing
+import O4.Generated.Facts.Drbg
+import O4.Generated.Facts.Ntor
 /-!
 # C05 — the obfs4 reader hands the application only a prefix of what the peer sealed
 
@@ -406,5 +409,23 @@ theorem server_ephemeral_per_connection :
     "ntor.NewKeypair" ∈ O4.Facts.Obfs4.obfs4ServerFactory_WrapConn_calls ∧
     "ntor.NewKeypair" ∉ O4.Facts.Obfs4.Transport_ServerFactory_calls ∧
     "ntor.NewKeypair" ∈ O4.Facts.Obfs4.obfs4ClientFactory_ParseArgs_calls := by decide
+
+
+/-- **structural fact, regenerated from the Go source on every run (go/ast)**: every package-level
+    variable (file-scope `var`) of the packages this property's mechanisms live in
+    (transports/obfs4, transports/obfs4/framing, common/drbg, common/ntor) is one of the names below — error values, fixed byte strings,
+    flags and function hooks that the code only reads after initialisation.  The models treat all
+    other state as owned by one connection / one object; a NEW package-level variable (a cache, a
+    pool, a scratch buffer, a pre-keyed hash shared "to save allocations") is how such state comes
+    to be shared between connections and goroutines, which compiles, passes the tests and typically
+    needs true parallelism or a multi-connection history to misbehave.  Adding one breaks this
+    theorem; the concurrent / multi-connection families of the harness then search for the failing
+    schedule. -/
+theorem no_new_package_level_state :
+    O4.Facts.Obfs4.pkg_vars ⊆ ["ErrInvalidHandshake", "ErrMarkNotFoundYet", "ErrNtorFailed", "ErrReplayedHandshake", "biasedDist", "zeroPadBytes"] ∧
+    O4.Facts.Framing.pkg_vars ⊆ ["ErrAgain", "ErrNonceCounterWrapped", "ErrTagMismatch"] ∧
+    O4.Facts.Drbg.pkg_vars ⊆ [] ∧
+    O4.Facts.Ntor.pkg_vars ⊆ ["mExpand", "protoID", "tKey", "tMac", "tVerify"] := by
+  decide
 
 end C05
